@@ -20,6 +20,7 @@ def main(ctx, args):
     cases, info = line_tables(ctx, nlines, 3 if ctx.quick else 5)
     n20 = sum(20 ** i for i in range(0, 2 + 1)) if ctx.quick else sum(20 ** i for i in range(0, 3 + 1))
     mcases, _ = line_tables(ctx, n20, 2, mode="marks")
+    mcases += mark_tables(ctx, 30)          # all 30 option combinations
     results = run_lines(ctx, cases + mcases)
     st = dict(lines=0, with_runs=0, rtl_context=0, mark_lines=0, shape_cases=0, shaped=0)
     samples = []
@@ -27,8 +28,9 @@ def main(ctx, args):
         st["lines"] += 1
         text = "".join(map(chr, c["line"]))
         rep = {"line": c["line"], "options": {"order": c["order"], "td": c["td"], "lim": c["lim"]}}
-        if not (c["perm"] and c["ident"]):
-            raise Infra("Layout.tla: Reorder is not a permutation / not the identity without opposite-direction characters: %s" % rep)
+        if not (c["perm"] and (c["ident"] or c["marks"]) and c["agree"]):
+            raise Infra("Layout.tla / Bidi.tla: Reorder is not a permutation, not the identity without opposite-direction characters, or the "
+                        "declarative and the operational definitions disagree: %s" % rep)
         if cr is not None:
             ctx.violation("direction functions crashed on %r %s: %s" % (text, rep["options"], cr["stderr"][-600:]), dict(rep, crash=cr), {"kind": "crash"})
             continue
@@ -39,7 +41,6 @@ def main(ctx, args):
             continue
         if c["marks"]:
             st["mark_lines"] += 1
-            continue
         if got["ctx"] != c["ctx"]:
             ctx.violation("base direction of %s under td=%d: expected %d got %d" % (["U+%04X" % x for x in c["line"]], c["td"], c["ctx"], got["ctx"]),
                           dict(rep, expected=c["ctx"], got=got["ctx"]), {"kind": "context"})
@@ -72,11 +73,12 @@ def main(ctx, args):
     samples.append({"shaping_contexts": st["shape_cases"], "example": {"line": ["U+%04X" % x for x in scases[100]["line"]], "shaped": "U+%04X" % scases[100]["want"]}})
     cov = {"evaluations": st["lines"] + st["shape_cases"], "distinct_nontrivial": st["with_runs"] + st["shaped"],
            "rule": "lines = all of <= 3 (4) characters over 13 class representatives under 3 (5) option combinations each, plus all lines of "
-                   "<= 2 (3) characters over those and the mark characters $ \\ { } [ ] * (permutation only); shaping = 45 letters x 10 x 10 "
+                   "<= 2 (3) characters over those and the mark characters $ \\ { } [ ] * and 16 longer lines with nested marks in both base "
+                   "directions (order compared with the operational definition Bidi!ReorderOp); shaping = 45 letters x 10 x 10 "
                    "neighbours x 3 diacritic settings; non-trivial = a line with a reversed run / a letter that takes a presentation form",
            "samples": samples, "stats": st, "tables": info, "exhaustive": True}
     return ctx.finish("model_checking", cov, ["the right-to-left and neutral sets are the configured ones (conf.h of the tree under test)",
-                                             "the exact order inside lines with direction marks is not specified, only that it is a permutation"])
+                                             "for lines with direction marks the reference is the operational definition (dir_fix over the configured patterns with the matcher of Regex.tla)"])
 
 
 if __name__ == "__main__":
